@@ -135,8 +135,12 @@ fn post_state<T: ZerokitMerkleTree>(t: &T, touched: &[usize], empties: bool) -> 
             })
             .collect();
         let _ = write!(s, ",\"rb\":[{}]", rb.join(","));
-        if empties && t.leaves_set() <= EMPTIES_MAX {
-            let _ = write!(s, ",\"empties\":{}", n_list(&t.get_empty_leaves_indices()));
+        if empties {
+            // (the list is what is bounded, not the leaf count: a tree holding tens of thousands of leaves has few holes)
+            let e = t.get_empty_leaves_indices();
+            if e.len() <= EMPTIES_MAX {
+                let _ = write!(s, ",\"empties\":{}", n_list(&e));
+            }
         }
         s
     }));
